@@ -148,6 +148,26 @@ EXPLANATION += (
     "which the trivial row is returned are not decided (R10.8 looks at the "
     "rewrite engine's); a merge whose result is discarded and replaced inside "
     "a helper outside the module is not followed.")
+# rules/c10_state.py (R10.24)
+EXPLANATION += (
+    "  R10.24 (rules/c10_state.py) pytd/mro.py keeps no state across calls: "
+    "(a) in the style of R16.9 (its write search is reused) no mutable value "
+    "bound at module level, class level or as a parameter default is written "
+    "by a function of the module - directly, through an alias (also `x = {} "
+    "if c else SHARED`) or through a module-local callee that receives it - "
+    "and no function re-binds a module-level name with `global`; (b) the "
+    "memo tables: for every function that stores into a parameter by key "
+    "(_ComputeMRO's `mros`) every call in the module passes the caller's own "
+    "memo parameter (recursion) or a local whose every reaching definition "
+    "is a fresh empty dict created in the caller; a module-level name, an "
+    "attribute, a mutable default or a conditional expression with such an "
+    "arm is a violation (the memo is keyed by pytd.ClassType, which hashes "
+    "by name: a table that outlives the call answers for an equally named "
+    "class of a later tree), any other origin an analysis error.  Blind "
+    "spots: state kept by callers outside pytd/mro.py (visitors."
+    "VerifyContainers) and by the objects the functions read (cls.bases, "
+    "lookup_ast) is not examined; Class.compute_mro and the rewrite engine "
+    "memoise per class object (self.mro / self._mro), which is not shared.")
 # rules/c10_quantifiers.py (R10.20, R10.21)
 EXPLANATION += (
     "  R10.20 (rules/c10_quantifiers.py) the quantifier around the C3 tail "
